@@ -12,6 +12,7 @@ package main
 //     equal-length lists are compared element-wise over the full range.
 
 import (
+	"fmt"
 	"go/ast"
 	"go/token"
 	"go/types"
@@ -44,7 +45,7 @@ func checkC15(c *Ctx) {
 	a.scalar()
 	c.Floor("C15.R1", 6)
 	c.Floor("C15.R2", 8)
-	c.Floor("C15.R3", 2)
+	c.Floor("C15.R3", 3)
 }
 
 // isSliceOfMembers: receiver types whose Similar must check member counts.
@@ -509,6 +510,115 @@ func (a *c15) scalar() {
 			continue
 		}
 		a.listHelper(helper, ptSim)
+	}
+	// ring comparison helper: ([]Point, []Point, float64) bool called from Polygon.Similar
+	// (directly or inside a function literal)
+	if mfd := a.c.P.Decl(a.c.P.Method("geom", "Polygon", "Similar")); mfd != nil {
+		var ring *types.Func
+		ast.Inspect(mfd.Body, func(n ast.Node) bool {
+			if call, ok := n.(*ast.CallExpr); ok && len(call.Args) == 3 {
+				if f := callee(a.info, call); f != nil && a.c.P.Decl(f) != nil && f.Type().(*types.Signature).Recv() == nil {
+					sig := f.Type().(*types.Signature)
+					if sl, ok := sig.Params().At(0).Type().Underlying().(*types.Slice); ok && types.Identical(sl.Elem(), ptT) && types.Identical(sig.Params().At(0).Type(), sig.Params().At(1).Type()) {
+						ring = f
+					}
+				}
+			}
+			return true
+		})
+		if ring == nil {
+			a.c.Unk("C15.R3", "geom.(Polygon).Similar#ring-comparison", mfd.Pos(), "ring comparison helper not found")
+		} else {
+			a.ringHelper(ring, ptSim)
+		}
+	}
+}
+
+// ringHelper: cyclic comparison of two rings from their anchors.  The counted
+// loop must make at least len-1 steps (one per distinct vertex; the closing
+// vertex repeats the first), each step comparing a[ia] with b[ib] and then
+// advancing both cursors with the same successor function; no early exit
+// other than `return false`.
+func (a *c15) ringHelper(h, ptSim *types.Func) {
+	name := a.c.P.FuncName(h)
+	fd := a.c.P.Decl(h)
+	ps := paramVars(a.info, fd.Type)
+	sc := newFnScope(a.info, fd.Body)
+	if len(ps) < 2 || ps[0] == nil || ps[1] == nil {
+		a.c.Unk("C15.R3", name, fd.Pos(), "unnamed ring parameters")
+		return
+	}
+	var found bool
+	var bad string
+	for _, st := range fd.Body.List {
+		l := sc.loopOf(st)
+		if l == nil {
+			continue
+		}
+		// the loop that calls the point comparison
+		var cmp *ast.CallExpr
+		ast.Inspect(l.Body, func(n ast.Node) bool {
+			if call, ok := n.(*ast.CallExpr); ok && callee(a.info, call) == ptSim && len(call.Args) == 3 {
+				cmp = call
+			}
+			return true
+		})
+		if cmp == nil {
+			continue
+		}
+		found = true
+		if l.Lo.Of != nil || l.Hi.Of == nil || !(objOf(a.info, l.Hi.Of) == ps[0] || objOf(a.info, l.Hi.Of) == ps[1]) {
+			a.c.Unk("C15.R3", name, st.Pos(), "ring loop bounds %s are not of the form [c, len(ring)+k)", l.String())
+			return
+		}
+		if steps := l.Hi.K - l.Lo.K; steps < -1 {
+			bad = fmt.Sprintf("the ring loop %s makes len%+d steps but a closed ring of len points has len-1 distinct vertices: %d of them are never compared, so a ring differing only there is reported similar", l.String(), steps, -1-steps)
+		}
+		brk, cont, _ := earlyExits(l.Body)
+		if len(brk)+len(cont) > 0 {
+			bad = "ring loop has break/continue: vertices after it are not compared"
+		}
+		// cursors
+		var cur [2]types.Object
+		for k := 0; k < 2; k++ {
+			if ix, ok := unparen(cmp.Args[k]).(*ast.IndexExpr); ok && objOf(a.info, ix.X) == ps[k] {
+				cur[k] = objOf(a.info, ix.Index)
+			}
+		}
+		if cur[0] == nil || cur[1] == nil || cur[0] == cur[1] {
+			if l.Idx != nil && cur[0] == cur[1] && cur[0] == l.Idx {
+				bad = "rings are compared position by position: rotating the start vertex of a closed ring is not ignored"
+			} else {
+				a.c.Unk("C15.R3", name, cmp.Pos(), "comparison `%s` is not of the form pointCompare(a[ia], b[ib], tol) with two cursors", src(cmp))
+				return
+			}
+		} else {
+			var adv [2]*types.Func
+			for _, bs := range l.Body.List {
+				as, ok := bs.(*ast.AssignStmt)
+				if !ok || len(as.Lhs) != 1 || len(as.Rhs) != 1 {
+					continue
+				}
+				for k := 0; k < 2; k++ {
+					if objOf(a.info, as.Lhs[0]) == cur[k] {
+						if call, ok := unparen(as.Rhs[0]).(*ast.CallExpr); ok && len(call.Args) >= 1 && objOf(a.info, call.Args[0]) == cur[k] {
+							adv[k] = callee(a.info, call)
+						}
+					}
+				}
+			}
+			if adv[0] == nil || adv[1] == nil || adv[0] != adv[1] {
+				bad = "the two ring cursors are not both advanced by the same successor function on every step"
+			}
+		}
+	}
+	switch {
+	case !found:
+		a.c.Unk("C15.R3", name, fd.Pos(), "ring comparison loop not recognised")
+	case bad != "":
+		a.c.Bad("C15.R3", name, fd.Pos(), "%s", bad)
+	default:
+		a.c.OK("C15.R3", name, fd.Pos(), "cyclic comparison from the anchors: at least len-1 steps, both cursors advanced by the same successor, no early exit")
 	}
 }
 
